@@ -100,6 +100,21 @@ theorem C35_first_frame_range {st : St} {d : Datum} {ref : ExtRef} {st' : St} {i
     (hnew : st.nextFrame.lookup (name, ref.key) = none) : i0 = 0 ∧ i1 = f + 1 :=
   first_frame_range h hf h0 hnew
 
+/-- FULL statement "the range of a converted stream datum is never empty" (an event references at least
+    one frame).  FALSE for the code as it is when two consecutively converted datums of one stream / data key
+    carry the same frame number (Counterexamples/C35.lean; the restart test is `index_stop < index_start`). -/
+def C35_ranges_nonempty_full : Prop :=
+  ∀ (ds : List Doc), (NormFlow.run ds).err = none →
+    ∀ sd g, Out.streamDatum sd (some g) ∈ (NormFlow.run ds).outs → (∀ f, g.frame = some f → 0 ≤ f) → sd.i0 < sd.i1
+
+/-- PARTIAL: one conversion, any state: the frame-based range is non-empty unless the datum repeats the frame
+    number the counter of its stream / data key already stands at (`index = frame + 1`).  (Frameless ranges
+    `[seq_num - 1, seq_num)` are non-empty by `C35_stream_datum_ranges`.) -/
+theorem C35_frame_range_nonempty_partial {st : St} {d : Datum} {ref : ExtRef} {st' : St} {i0 i1 : Int}
+    {name : String} {f : Int} (h : convert st d ref = .ok (st', i0, i1, name)) (hf : d.frame = some f) (h0 : 0 ≤ f)
+    (hne : ((st.nextFrame.lookup (name, ref.key)).getD Normalizer.frameCounterInit).2 ≠ f + 1) : i0 < i1 :=
+  frame_range_nonempty h hf h0 hne
+
 /-- FULL statement for the frame-based ranges ("match the event"): the datums are converted in the order
     of the events that reference them, so that the tiling of `C35_frame_ranges_tile` is a tiling in EVENT
     order.  This is FALSE for the code as it is (Counterexamples/C35.lean, known finding): a datum of an
